@@ -12,8 +12,8 @@ from ..gen import prob
 
 ID = "C20"
 LEVEL = "exploration"
-BUDGET = {"quick": 1600, "thorough": 24000}
-SHARDS = {"quick": 8, "thorough": 16}
+BUDGET = {"quick": 4000, "thorough": 24000}
+SHARDS = {"quick": 16, "thorough": 16}
 RULE = (
     "Hypothesis-generated acyclic programs (3-7 nodes, shared inputs, multi-output nodes) with an interval nested to depth 0-3 "
     "(optionally through thin wrapper levels and with renamed wrapper boundaries), optional emit/wait_for pairs, optional "
